@@ -244,6 +244,7 @@ type dataSet struct {
 	aofSegs    []*dataSetAof // aof segments
 	aofMap     map[int64]*dataSetAof
 	lastAofSeg atomic.Int64
+	closed     bool // the dataset was replaced or reset; its readers and writers are closed
 }
 
 func (ds *dataSet) TruncateGap() (*dataSetRdb, []*dataSetAof) {
@@ -333,6 +334,7 @@ func (ds *dataSet) InRange(offset int64) bool {
 
 func (ds *dataSet) Close() {
 	ds.mux.Lock()
+	ds.closed = true
 	rdb := ds.rdb
 	aof := ds.aofSegs
 	ds.mux.Unlock()
@@ -342,6 +344,12 @@ func (ds *dataSet) Close() {
 	for _, a := range aof {
 		a.Close()
 	}
+}
+
+func (ds *dataSet) IsClosed() bool {
+	ds.mux.RLock()
+	defer ds.mux.RUnlock()
+	return ds.closed
 }
 
 func (ds *dataSet) CloseAofWriter() {
